@@ -69,6 +69,19 @@ CLAIMED = {
         "property-based testing (Hypothesis) against the transfer definitions, round-by-round conservation invariant, chi-square GOF for the random selection",
         "3/C03",
     ),
+    "C01": (
+        "All 18 rule classes are constructed on generated valid profiles (ranked: partial/tied/zero-vote/"
+        "rational; scored: limits met by construction) x every configuration x seeded or scripted random "
+        "choices.  Oracles are validity predicates on the finished object, not expected winners: progress bound "
+        "(termination), exactly m winners (1 for IRV/TopTwo, brute-force Smith set for DominatingSets), every "
+        "round's elected+remaining+eliminated list each candidate once, statuses monotone, and the exception "
+        "policy: only ValueError with tiebreak=None and only where the harness exhibits the boundary tie from "
+        "independently computed tallies (reference STV model for the STV family / Alaska's stage).",
+        "Progress bound 3n+10 rounds stands in for termination; known findings F10a/b, F12, F13, F14 are "
+        "attributed by input predicates plus model-confirmed state and counted, everything else is a violation.",
+        "property-based testing (Hypothesis, scripted randomness) with validity-predicate oracles and reference tallies",
+        "3/C01",
+    ),
 }
 
 PENDING_REASON = "check not built yet in this session; the design (DESIGN.md section 3) claims it and it will be registered once it is quiet on the unchanged tree and catches its mutants"
